@@ -18,6 +18,7 @@ META = dict(
         "UBSan nonnull-attribute is disabled (memcpy(NULL, .., 0) on empty columns is treated as defined)",
         "a watchdog firing counts only after an isolated re-run with 5x the budget hangs again",
     ],
+    HANG_IS_VIOLATION=True,
     BUDGET={"quick": 55.0, "thorough": 1200.0},
     CASE_TIMEOUT={"quick": 30, "thorough": 60},
     SHIM=True,
